@@ -36,7 +36,7 @@ for PAT in "$@"; do
       sig="$(echo "$out" | grep -m1 'failure in' | sed 's/.*\[\(.*\)\].*/\1/' | cut -c1-90)"
       all="$all $p=$r[$sig]"
     done
-    git -C "$R" checkout -- .
+    git -C "$R" checkout -- . && git -C "$R" clean -fdq -e target
     if echo "$all" | grep -q "=1\["; then caught=$((caught+1)); echo "CAUGHT $name -$all" | tee -a "$res"; else missed=$((missed+1)); echo "MISSED $name -$all" | tee -a "$res"; fi
   done
 done
